@@ -5,13 +5,17 @@ from lib import gen, sysrun
 from lib.sysrun import Case
 
 LEVEL = "proof"
-CHECKER = "lake build KalignModel.Props.C07 && lake env lean KalignModel/Audit/C07.lean"
+CHECKER = "lake build KalignModel.Props.C07Opt && lake env lean KalignModel/Audit/C07.lean"
 NEG1 = "bf800000"
 
 
 def theorems():
-    p = os.path.join(C.LEAN, "KalignModel", "Props", "C07.theorems")
-    return [l.strip() for l in open(p) if l.strip() and not l.startswith("#")] if os.path.exists(p) else []
+    out = []
+    for f in ("C07.theorems", "C07Opt.theorems"):
+        p = os.path.join(C.LEAN, "KalignModel", "Props", f)
+        if os.path.exists(p):
+            out += [l.strip() for l in open(p) if l.strip() and not l.startswith("#")]
+    return out
 
 
 def fbits(x):
@@ -109,7 +113,7 @@ def run(ctx):
                         "pairs (substitutions, internal indels, overhangs), all types and user penalties, lengths on both sides of 500, groups of 1..3 identical copies per side; only "
                         "pairs whose optimum is certified by the reference DP are compared; non-trivial = distinct certified cases whose optimum contains a gap")
     thms = theorems()
-    ok = C.lean_obligations(ctx, "C07", thms) if thms else False
+    ok = C.lean_obligations(ctx, "C07", thms, module="C07Opt") if thms else False
     if not thms:
         ctx.obligations.append(dict(name="Props/C07 theorems", ok=False, why="theorem list missing"))
     kvh = C.build_harness("asan")
